@@ -502,3 +502,17 @@ Proof.
   specialize (IH (mkS (s_buf s ++ c) t false) eq_refl N).
   destruct (feed v ws (mkS (s_buf s ++ c) t false) cs). exact IH.
 Qed.
+
+(** * The watchers in effect ([run] / [_sudo]) are the documented ones *)
+Lemma call_watchers_spec cfg_ws kw_ws sudo :
+  call_watchers cfg_ws kw_ws sudo = spec_watchers cfg_ws kw_ws sudo.
+Proof.
+  unfold call_watchers, spec_watchers. destruct sudo as [su|]; [reflexivity | apply app_nil_r].
+Qed.
+
+Theorem call_meets_spec cfg_ws kw_ws sudo sched how :
+  let ws := call_watchers cfg_ws kw_ws sudo in
+  spec_ok (spec_watchers cfg_ws kw_ws sudo) sched how
+          (fst (run current ws sched)) (snd (run current ws sched))
+          (outcome_exn how (snd (run current ws sched))) = true.
+Proof. cbv zeta. rewrite call_watchers_spec. apply current_meets_spec. Qed.
